@@ -124,3 +124,84 @@ def describe(c):
 
 def sample(c):
     return {k: c.get(k) for k in ('_texts', '_dflt', '_call', '_target', '_creds', 'obs')}
+
+
+class Session:
+    """A long-lived real Enforcer whose rule store is changed through the public
+    API between enforcement calls; the recorded session is validated by
+    spec/Trace_Store.tla (the store is a state machine there)."""
+
+    def __init__(self, rules, dflt=None, registered=(), enforce_scope=True, via='rules_obj'):
+        self.dflt = dflt
+        self.registered = list(registered)
+        self.enforce_scope = enforce_scope
+        texts = {n: ev.rule_text(t) for n, t in rules}
+        reg = [(n, list(sc), texts.get(n, '!')) for n, sc in registered]
+        self.e = ev.make_enforcer(texts, dflt, reg, enforce_scope, via)
+        self.trace = {'init': {'rules': [[n, ev.strip(t)] for n, t in rules], 'dflt': dflt_spec(dflt)}, 'events': []}
+        self.cur = list(rules)
+        self.log = []
+
+    def set_rules(self, rules, overwrite=True, how='rules_obj'):
+        from oslo_policy import policy, _parser
+        texts = {n: ev.rule_text(t) for n, t in rules}
+        if how == 'rules_obj':
+            arg = policy.Rules.from_dict(texts, self.e.default_rule)
+        elif how == 'own_default':
+            arg = policy.Rules.from_dict(texts, sorted(texts)[0] if texts else 'default')
+        else:
+            arg = {n: _parser.parse_rule(t) for n, t in texts.items()}
+        self.e.set_rules(arg, overwrite=overwrite, use_conf=False)
+        self.trace['events'].append({'op': 'set_rules', 'overwrite': 1 if overwrite else 0, 'rules': [[n, ev.strip(t)] for n, t in rules]})
+        self.log.append('set_rules(%r, overwrite=%s, as %s)' % (texts, overwrite, how))
+        if overwrite:
+            self.cur = list(rules)
+        else:
+            d = dict(self.cur)
+            d.update(dict(rules))
+            self.cur = list(d.items())
+
+    def clear(self):
+        self.e.clear()
+        self.trace['events'].append({'op': 'clear'})
+        self.log.append('clear()')
+        self.cur = []
+
+    def enforce(self, call, target, creds, checklog=0):
+        c = enforce_case(self.cur, call, target, creds, dflt=self.dflt, registered=self.registered, enforce_scope=self.enforce_scope,
+                         checklog=checklog, enforcer=self.e)
+        evn = strip_case(c)
+        evn['op'] = 'enforce'
+        self.trace['events'].append(evn)
+        self.log.append('enforce(%s, %s, %s) -> %s' % (c['_call'], c['_target'], c['_creds'], {k: c['obs'][k] for k in ('o', 'v', 'cls')}))
+        return c
+
+
+def judge_sessions(ctx, sessions, timeout=3000):
+    """returns list of (session index, failing event number)"""
+    import json
+    import os
+    import re
+    import tempfile
+    if not sessions:
+        return []
+    fd, path = tempfile.mkstemp(prefix='verif_sessions_', suffix='.json')
+    try:
+        with os.fdopen(fd, 'w') as f:
+            json.dump([s.trace for s in sessions], f)
+        res = tlc.run('Trace_Store', 'SPECIFICATION Spec\nINVARIANT Conforms\nCHECK_DEADLOCK FALSE\n', env={'VERIF_CASES': path}, cont=True, timeout=timeout)
+    finally:
+        os.unlink(path)
+    ctx.traces += len(sessions)
+    want = sum(len(s.trace['events']) for s in sessions) + len(sessions)
+    if res.distinct != want:
+        raise tlc.TLCError('Trace_Store: %d states for %d events+starts\n%s' % (res.distinct, want, res.out[-1500:]))
+    bad = {}
+    for v in res.violations:
+        if v['name'] != 'Conforms':
+            raise tlc.TLCError('unexpected violation %s\n%s' % (v['name'], v['text'][:1500]))
+        cid = int(re.findall(r'\bcid = (\d+)', v['text'])[-1])
+        l = int(re.findall(r'\bl = (\d+)', v['text'])[-1])
+        if cid not in bad or l < bad[cid]:
+            bad[cid] = l
+    return [(cid - 1, l - 1) for cid, l in sorted(bad.items())]
